@@ -266,6 +266,61 @@ def check_sparse(ck, prog):
 XZ_DECODER_FLAGS = {0x02: "LZMA_TELL_UNSUPPORTED_CHECK", 0x08: "LZMA_CONCATENATED", 0x10: "LZMA_IGNORE_CHECK"}
 
 
+def check_is_sparse(ck, prog):
+    """is_sparse() decides that a whole output buffer may be replaced by a hole: it must look at EVERY word.  The loop
+    advances i by a constant step k and reads buf->u64[i + c] for constants c: the set of c has to be {0 .. k-1} and the
+    bound the full array length, otherwise non-zero bytes in an unexamined word are silently turned into zeros in sparse
+    output (but not in piped output)."""
+    f = prog.fn("is_sparse", FIO, target="xz")
+    ck.saw_function(f)
+    step = None
+    for b, i, e in f.iter_elems():
+        e_ = ex.deref(e)
+        if e_.get("k") == "un" and e_.get("op") in ("pre++", "post++") and ex.show(e_["e"]) == "i":
+            step = 1
+        for (l, r, op, n) in ex.writes(e):
+            if ex.show(l) == "i" and op == "+=" and ex.const_val(r) is not None:
+                step = ex.const_val(r)
+    offs = set()
+    nreads = 0
+    other = None
+    for b in f.blocks.values():
+        for x in [y for e in b.elems if e is not None for y in ex.walk(e, into_refs=False)] + \
+                ([y for y in ex.walk(b.term["cond"])] if b.term and "cond" in b.term else []):
+            if x.get("k") == "idx" and ex.show(x["b"]).endswith("->u64"):
+                ix = ex.strip(x["i"])
+                nreads += 1
+                if ix.get("k") == "var" and ix["n"] == "i":
+                    offs.add(0)
+                elif ix.get("k") == "bin" and ix["op"] == "+" and ex.show(ix["l"]) == "i" and ex.const_val(ix["r"]) is not None:
+                    offs.add(ex.const_val(ix["r"]))
+                else:
+                    other = x
+    bound = None
+    for b in f.blocks.values():
+        if b.term and "cond" in b.term:
+            c = ex.strip(b.term["cond"])
+            if c.get("k") == "bin" and c["op"] == "<" and ex.show(c["l"]) == "i" and ex.const_val(c["r"]) is not None:
+                bound = ex.const_val(c["r"])
+    if step is None or not nreads or other is not None or bound is None:
+        raise AnalysisBroken("is_sparse: loop shape not recognised (step %s, reads %d, bound %s)" % (step, nreads, bound))
+    import re
+    words = None
+    for rn, rec in prog.records.items():
+        for fd_ in rec["fields"]:
+            if fd_["n"] == "u64" and "io_buf" in rn:
+                m = re.search(r"\[(\d+)\]", fd_.get("ty") or "")
+                if m:
+                    words = int(m.group(1))
+    ok = offs == set(range(step)) and (words is None or bound == words) and bound % step == 0
+    ck.ob("C18-SPARSE", "is-sparse-covers-buffer", ok, common.where(f),
+          "is_sparse: step %d, words examined per iteration %s, bound %d = the whole buffer" % (step, sorted(offs), bound) if ok else
+          "is_sparse(): the loop advances by %d word(s) but examines only offsets %s (bound %d, buffer has %s words): non-zero "
+          "data in a word that is never examined is written as a hole, i.e. as zeros, when the output is a sparse-capable "
+          "regular file, while a pipe gets the real bytes" % (step, sorted(offs), bound, words),
+          key="SPARSE:is-sparse-covers-buffer")
+
+
 def check_decflags(ck, prog):
     """xz must hand over everything the library decodes before an error (xzdec and `xz -dc` agree byte for byte up to the
     error): it must not ask the threaded decoder to fail fast, and it asks for exactly the documented flags."""
@@ -370,5 +425,9 @@ def run(ck):
     ck.floor("C18-WBF", 5)
     ck.floor("C18-EXIT", 14)
     check_sparse(ck, prog)
+    check_is_sparse(ck, prog)
     check_decflags(ck, prog)
     check_fmt(ck, prog)
+    # "a file is created only from a completely valid input": coder_normal's success rules (shared with C17)
+    from . import C17
+    C17.check_fail(ck, prog)
